@@ -9,6 +9,7 @@ from oracle import P
 def opt_unit(b): return some(UNIT) if b else none()
 def PA_none(): return En("PathArguments", 0, "None", [])
 
+PAREN_ARGS = [False]      # Fn(A) -> B sugar only parses in bound position; harnesses switch it on to build such paths
 def parse_path(p):
     lead = False
     if p.is_p(":") and p.is_p(":", 1): p.eat(); p.eat(); lead = True
@@ -25,8 +26,9 @@ def parse_path(p):
             p.eat()
             pv = PunctV(items, ","); pv.trailing = trailing
             args = En("PathArguments", 1, "AngleBracketed", [Agg("AngleBracketedGenericArguments", [opt_unit(colon2), UNIT, pv, UNIT])])
-        elif p.peek() is not None and p.peek()[0] == "g" and p.peek()[1] == "Parenthesis" and False:
-            pass
+        elif p.peek() is not None and p.peek()[0] == "g" and p.peek()[1] == "Parenthesis" and PAREN_ARGS[0]:
+            gtok = p.eat()
+            args = En("PathArguments", 2, "Parenthesized", [SynV("ParenthesizedGenericArguments", [gtok])])
         segs.append(Agg("PathSegment", [ident, args]))
         if p.is_p(":") and p.is_p(":", 1) and p.is_i(None, 2): p.eat(); p.eat(); continue
         break
